@@ -5,6 +5,7 @@ import NurbsVerif.Lemmas.AffineMaps
 import NurbsVerif.Lemmas.AffineAssembleKinds
 import NurbsVerif.Lemmas.AffineAssembleSeq
 import NurbsVerif.Lemmas.AffineAssembleWitness
+import NurbsVerif.Lemmas.AffineContainer
 
 /-!
 # C10  Translation, rotation and scaling act on the shape as on its points
@@ -552,5 +553,120 @@ example : startPoint exVol = project (ptsGet exVol.net 0) := by
     · exact hcl
     · omega)
   simpa [exVol] using this
+
+/-! ## CONTAINERS (`multi.CurveContainer / SurfaceContainer / VolumeContainer`)
+
+    `operations.translate / scale / rotate` run `for g in geom` over the elements; `rotate` takes ONE origin – the
+    evaluated start point of the FIRST element, `geom[0].evaluate_single(domain starts)` – and rotates every element
+    about it.  Model: a container is the list of its elements; `translateAll`, `scaleAll`, `rotateAll`
+    (`Model/Transform.lean`; driver op `xformc`), `rotateAt S o axis c s` = one call of the inner
+    `rotate_x / rotate_y / rotate_z (ncs, opt, alpha)` about the given point `o`. -/
+
+/-- **Rotation of a shape about an arbitrary given point** `o` (with as many coordinates as the shape's points; 2-D and
+    3-D, axis 0, 1 or 2, ANY numbers `c`, `s`), end to end: every evaluated point of the closed domain moves by
+    `rotateAbout axis c s o` (subtract `o`, apply the rotation formulas, add `o`; coordinates: `rotation_map_coordinates`),
+    rational shapes with positive weights included. -/
+theorem rotate_about_point {d : ℕ} {S : Shape K} (h : ShapeWF d S) (hd : d = 2 ∨ d = 3) (o : List K) (ho : o.length = d)
+    (axis : ℕ) (hax : axis ≤ 2) (c s : K) (t : ℕ → K) (ht : S.InDom t) :
+    (rotateAt S o axis c s).pointAt t = rotateAbout axis c s o (S.pointAt t) :=
+  rotateAt_pointAt h hd o ho axis c s t ht
+
+/-- The per-shape `rotate` is the rotation about the shape's own start point.  (Definitional, `rfl`.) -/
+theorem rotate_is_rotation_about_own_start_point (S : Shape K) (axis : ℕ) (c s : K) :
+    rotate S axis c s = rotateAt S (startPoint S) axis c s :=
+  rotate_eq_rotateAt S axis c s
+
+/-- The rotation about a point is one affine map of the coordinates. -/
+theorem rotation_about_point_is_affine (d : ℕ) (hd : d = 2 ∨ d = 3) (axis : ℕ) (hax : axis ≤ 2) (c s : K) (o : List K)
+    (ho : o.length = d) : ∃ A b, AffOn d (rotateAbout axis c s o) A b :=
+  rotateAbout_affOn d hd axis c s o ho
+
+/-- What "the element `S` was moved to `R` by the point map `f`" (`ElemMoved d f S R`) says: `R` is a well-formed shape
+    with the same rational flag, degrees, knot vectors and sizes (hence the same domain); if `S` is rational every
+    control point keeps its weight; and EVERY evaluated point of the closed domain of `S` is mapped by `f`.
+    (Unfolding lemma, `Iff.rfl`.) -/
+theorem elemMoved_means (d : ℕ) (f : List K → List K) (S R : Shape K) :
+    ElemMoved d f S R ↔
+      (ShapeWF d R ∧ (R.rat = S.rat ∧ R.degs = S.degs ∧ R.kvs = S.kvs ∧ R.sizes = S.sizes) ∧
+       (S.rat = true → R.net.length = S.net.length ∧
+          ∀ i, i < S.net.length → (ptsGet R.net i).getD d 0 = (ptsGet S.net i).getD d 0) ∧
+       ∀ t : ℕ → K, S.InDom t → R.pointAt t = f (S.pointAt t)) :=
+  Iff.rfl
+
+/-- **`translate` on a container**: when the call succeeds (`some Rs`: the container is not empty) the result has as
+    many elements, and the `i`-th one is the `i`-th input element with every evaluated point moved by the SAME
+    translation `translatePt v` – elements of any kind, degrees and sizes, rational (positive weights) and not, mixed. -/
+theorem container_translate_moves_every_point {d : ℕ} {Ss Rs : List (Shape K)} (hw : ∀ S ∈ Ss, ShapeWF d S)
+    (v : List K) (hv : v.length = d) (hR : translateAll Ss v = some Rs) :
+    Rs.length = Ss.length ∧
+    ∀ (i : ℕ) (S R : Shape K), Ss[i]? = some S → Rs[i]? = some R → ElemMoved d (translatePt v) S R :=
+  translateAll_moved hw v hv hR
+
+/-- **`scale` on a container**: every element, every evaluated point, the same scaling `scalePt m`. -/
+theorem container_scale_moves_every_point {d : ℕ} {Ss : List (Shape K)} (hw : ∀ S ∈ Ss, ShapeWF d S) (m : K) :
+    (scaleAll Ss m).length = Ss.length ∧
+    ∀ (i : ℕ) (S R : Shape K), Ss[i]? = some S → (scaleAll Ss m)[i]? = some R → ElemMoved d (scalePt m) S R :=
+  scaleAll_moved hw m
+
+/-- **`rotate` on a container** (2-D / 3-D, axis 0, 1 or 2, any `c`, `s`): when the call succeeds there is a first
+    element `S0`, and every evaluated point of EVERY element is moved by the ONE map `rotateAbout axis c s (startPoint S0)`
+    – the rotation about the evaluated start point of the first element, not about each element's own start point. -/
+theorem container_rotate_moves_every_point {d : ℕ} {Ss Rs : List (Shape K)} (hw : ∀ S ∈ Ss, ShapeWF d S)
+    (hd : d = 2 ∨ d = 3) (axis : ℕ) (hax : axis ≤ 2) (c s : K) (hR : rotateAll Ss axis c s = some Rs) :
+    ∃ S0, Ss.head? = some S0 ∧ Rs.length = Ss.length ∧
+    ∀ (i : ℕ) (S R : Shape K), Ss[i]? = some S → Rs[i]? = some R →
+      ElemMoved d (rotateAbout axis c s (startPoint S0)) S R :=
+  rotateAll_moved hw hd axis c s hR
+
+/-- The first element of a rotated container is the per-shape `rotate` of the first element, and the common centre
+    stays where it is: it is again the start point of the first element of the result. -/
+theorem container_rotate_first_element {d : ℕ} {Ss Rs : List (Shape K)} (hw : ∀ S ∈ Ss, ShapeWF d S)
+    (hd : d = 2 ∨ d = 3) (axis : ℕ) (hax : axis ≤ 2) (c s : K) (hR : rotateAll Ss axis c s = some Rs) :
+    ∃ S0 R0, Ss.head? = some S0 ∧ Rs.head? = some R0 ∧ R0 = rotate S0 axis c s ∧ startPoint R0 = startPoint S0 :=
+  rotateAll_head hw hd axis c s hR
+
+/-- **The empty container**: `translate` raises (the container's `dimension` is 0, every vector is refused) and `rotate`
+    raises (`geom[0]`: IndexError) – the model answers `none`, the driver `ERR` –, `scale` returns an empty container;
+    a non-empty container is never refused by the model functions (the vector-length / axis checks are the guards
+    `v.length = d`, `axis ≤ 2` of the theorems above, `ERR` in the driver). -/
+theorem empty_container (Ss : List (Shape K)) (v : List K) (m : K) (axis : ℕ) (c s : K) :
+    translateAll ([] : List (Shape K)) v = none ∧ scaleAll ([] : List (Shape K)) m = [] ∧
+    rotateAll ([] : List (Shape K)) axis c s = none ∧
+    ((translateAll Ss v).isSome ↔ Ss ≠ []) ∧ ((rotateAll Ss axis c s).isSome ↔ Ss ≠ []) :=
+  ⟨rfl, rfl, rfl, translateAll_isSome Ss v, rotateAll_isSome Ss axis c s⟩
+
+/-- A container of one element behaves as the single shape.  (Definitional, `rfl`.) -/
+theorem container_of_one_element (S : Shape K) (v : List K) (m : K) (axis : ℕ) (c s : K) :
+    translateAll [S] v = some [translate S v] ∧ scaleAll [S] m = [scale S m] ∧
+    rotateAll [S] axis c s = some [rotate S axis c s] :=
+  all_singleton S v m axis c s
+
+-- witness (in `Lemmas/AffineContainer.lean`): the two-element surface container `[exSurf, exSurfB]` – the rational,
+-- u-unclamped `exSurf` (degrees 2×1, sizes 3×2) first, then the non-rational `exSurfB` (degrees 1×2, sizes 2×3, domain
+-- `[0,1] × [0,2]`), `exPair_wf`; parameter pair `exTB = (1/4, 3/2)` of the second element, `exTB_inDom`
+
+/-- non-vacuity of `container_rotate_moves_every_point`: axis 1, `c = 3/5`, `s = 4/5`; the SECOND element is rotated about
+    the start point of the FIRST -/
+example (Rs : List (Shape ℚ)) (R : Shape ℚ) (hR : rotateAll [exSurf, exSurfB] 1 (3/5) (4/5) = some Rs) (h1 : Rs[1]? = some R) :
+    R.pointAt exTB = rotateAbout 1 (3/5) (4/5) (startPoint exSurf) (exSurfB.pointAt exTB) := by
+  obtain ⟨S0, h0, _, hall⟩ := container_rotate_moves_every_point exPair_wf (Or.inr rfl) 1 (by omega) (3/5) (4/5) hR
+  simp only [List.head?_cons, Option.some.injEq] at h0
+  subst h0
+  exact (hall 1 exSurfB R rfl h1).2.2.2 exTB exTB_inDom
+
+/-- … concretely: the call succeeds with two elements, the common centre is `(0, 1/2, 0)` (not the start point
+    `(1, 0, 0)` of the second element), and the point of the second element at `(1/4, 3/2)` goes where that
+    rotation sends it, which is NOT where the per-shape `rotate` of the second element alone would send it -/
+example : ∃ R0 R1, rotateAll [exSurf, exSurfB] 1 (3/5) (4/5) = some [R0, R1] ∧ startPoint exSurf = [0, 1/2, 0] ∧
+    startPoint exSurfB = [1, 0, 0] ∧ R1.pointAt exTB = rotateAbout 1 (3/5) (4/5) [0, 1/2, 0] (exSurfB.pointAt exTB) ∧
+    R1.pointAt exTB ≠ (rotate exSurfB 1 (3/5) (4/5)).pointAt exTB :=
+  ⟨_, _, rfl, by decide +kernel, by decide +kernel, by decide +kernel, by decide +kernel⟩
+
+/-- non-vacuity of `container_translate_moves_every_point` / `container_scale_moves_every_point` on the same container -/
+example : (∀ Rs R, translateAll [exSurf, exSurfB] [1, -2, 1/2] = some Rs → Rs[1]? = some R →
+      R.pointAt exTB = translatePt [1, -2, 1/2] (exSurfB.pointAt exTB)) ∧
+    (∀ R, (scaleAll [exSurf, exSurfB] (-3/2))[0]? = some R → R.pointAt exT = scalePt (-3/2) (exSurf.pointAt exT)) :=
+  ⟨fun Rs R hR h1 => ((container_translate_moves_every_point exPair_wf _ rfl hR).2 1 exSurfB R rfl h1).2.2.2 exTB exTB_inDom,
+   fun R h0 => ((container_scale_moves_every_point exPair_wf _).2 0 exSurf R rfl h0).2.2.2 exT exT_inDom⟩
 
 end C10
